@@ -138,8 +138,25 @@ def check_contexts(A, rep):
                         rep.fail("C05.c", norm_key("C05.c", which, "inner"), f"leaving an INNER {which} buffering context (counter {count} -> {count - 1}) already flushes", g.witness(g.path(g.entry, [calls[0].id])), g.label)
 
 
+def check_per_class_state(A, rep):
+    """(i) every concrete buffered class owns its own buffer, size counter, registry, context and lock."""
+    names = ("_buffer", "_CURRENT_BUFFER_SIZE", "_buffered_collections", "_buffer_context", "_BUFFER_LOCK")
+    for cls in A.concrete():
+        if not cls.is_subclass_of("FileBufferedCollection"):
+            continue
+        for nm in names:
+            owner, v = A.model.lookup(cls, nm)
+            if owner is cls:
+                rep.ok("C05.i")
+            else:
+                rep.fail("C05.i", norm_key("C05.i", nm, "shared"),
+                         f"class-wide buffer state `{nm}` of {cls.name} is inherited from {owner.name if owner else None} instead of being created per class: buffering one class flushes / counts collections of another",
+                         [], cls.name)
+
+
 def check_layer(A, rep):
     """(e) data-type agnostic buffer / backend layer, (g) flush merges the entry."""
+    check_per_class_state(A, rep)
     n_checked = 0
     for cls in A.concrete():
         if not A.is_buffered(cls):
